@@ -241,7 +241,7 @@ pub fn run(ctx: &Ctx) -> i32 {
     let max_len = wl.max_len;
     acc.finish(
         "exploration",
-        &format!("all texts of <= {max_len} units over {{a, é, €, 😉, LF, CRLF}}, every unit-boundary offset, every position with line <= lines+1 and character <= units+2 (positions strictly inside a surrogate pair skipped), every span; non-trivial = text has a multi-byte character and a line terminator; distinct by text hash (capped sample per chunk)"),
+        &format!("all texts of <= {max_len} units over {{a, é, €, 😉, LF, CRLF}}, every unit-boundary offset, every position with line <= lines+1 and character <= units+2 (positions strictly inside a surrogate pair skipped), every span; plus recorded language-server sessions over C15's histories (no fresh server): the error the library pipeline locates in the current texts must be among the diagnostics published for the document of its module, with exactly the range of its span in the client's text; non-trivial = text has a multi-byte character and a line terminator; distinct by text hash (capped sample per chunk)"),
         1000,
         true,
         &["reference conversion built on encode_utf16 and an explicit line table", "lone CR outside the property's alphabet"],
